@@ -33,7 +33,7 @@ def bars(grid, paths, spread):
 def full_model(name, contracts, space, grid, events, targets, lats=(0,), delays=(0,), fees="free", rate=F(0), markup=F(0),
                deposit=F(1000), thr=F(0), maxsteps=3, ruin="done", chain=(), chain_ltd=(), chain_exp=(), yearlen=0,
                base=(2019, 3, 4), invariants=(), properties=(), reset_anywhere=False, clockscope="restored_on_entry",
-               extends="EnvFull", extra_plain=None, chain_offset=0, fractional=True, rate_path=(), measure="weight", relative=False):
+               extends="EnvFull", extra_plain=None, chain_offset=0, fractional=True, rate_path=(), measure="weight", relative=False, menu=False):
     cs = {c: CONTRACTS[c] for c in contracts}
     fixed, prop = FEES[fees]
     defs = {
@@ -56,7 +56,8 @@ def full_model(name, contracts, space, grid, events, targets, lats=(0,), delays=
         "ctx": {"model": {"contracts": cs, "space": list(space), "chain": list(chain), "fixed": fixed, "prop": prop,
                           "deposit": deposit, "rate": rate, "markup": markup, "thr": thr, "base": list(base),
                           "chain_offset": chain_offset, "fractional": bool(fractional),
-                          "rate_path": [tuple(x) for x in rate_path], "yearlen": yearlen, "measure": measure, "relative": bool(relative)},
+                          "rate_path": [tuple(x) for x in rate_path], "yearlen": yearlen, "measure": measure, "relative": bool(relative),
+                          "menu": bool(menu), "targets": [dict(t) for t in targets]},
                 "maxsteps": maxsteps, "name": name},
         "invariants": list(invariants), "properties": list(properties),
     }
@@ -230,6 +231,11 @@ def c09_models(tier, ruin="done"):
     ms.append(full_model("crash-lots", ["S1", "F4"], ["S1", "F4"], grid, ev_l, [{"S1": F(3)}, {"S1": F(1)}, {}], lats=(0,),
                          delays=(0,), deposit=F(128), maxsteps=4, ruin=ruin, measure="lots", invariants=C09_INV,
                          properties=C09_PROPS))
+    # an account that was never funded (deposit 0) with actions in numbers of contracts: NLV is exactly 0 when the first decision
+    # arrives - nothing executes (no purchase on borrowed cash), the episode ends
+    ms.append(full_model("unfunded-lots", ["S1", "F4"], ["S1", "F4"], grid, ev_l, [{"S1": F(1)}, {"F4": F(-1)}, {}], lats=(0,),
+                         delays=(0,), deposit=F(0), maxsteps=2, ruin=ruin, measure="lots", invariants=C09_INV,
+                         properties=C09_PROPS))
     # the same in the latency window: the crash is applied just before the decision, which therefore arrives insolvent
     ev_m = bars(grid, {"S1": [64, 64, 64, 64, 64], "F4": [12, 12, 12, 12, 12]}, 0) + \
         [Rec(t=grid[1] + L, kind="q", c="S1", bid=16, ask=16), Rec(t=grid[2] + L, kind="q", c="S1", bid=64, ask=64)]
@@ -271,6 +277,9 @@ def c11_models(tier):
               properties=["LeadForward"])
     ms = [full_model("roll", cs, ["S1", "CH"], grid, ev, tg, lats=(0,), delays=(0, 1), fees="free", maxsteps=5, **kw)]
     # the chain configured with a month offset: the second-nearest contract is the one traded
+    # the same roll through a DISCRETE action space: a menu of allocations naming the chain, the same entry chosen before and
+    # after a last-trading instant (an entry of the menu denotes the chain, i.e. whatever contract leads it when it is executed)
+    ms.append(full_model("roll-menu", cs, ["S1", "CH"], grid, ev, tg[:3], lats=(0,), delays=(0,), fees="free", maxsteps=5, menu=True, **kw))
     ms.append(full_model("roll-offset1", cs, ["S1", "CH"], grid, ev, tg[:3], lats=(0,), delays=(0,), fees="free", maxsteps=5,
                          chain_offset=1, **kw))
     # a last-trading instant inside the latency window: timesteps at 23:59:30, quotes again at 00:00:15, latency 60 s;
